@@ -1,5 +1,6 @@
 import ClaripyProofs.Lemmas.VSA.SetLift
 import ClaripyProofs.Lemmas.VSA.ModSound
+import ClaripyProofs.Lemmas.VSA.ModFull4
 import ClaripyProofs.Lemmas.VSA.SextSound
 import ClaripyProofs.Lemmas.VSA.AshrSound
 import ClaripyProofs.Lemmas.VSA.ConcatSound
@@ -75,13 +76,13 @@ theorem dsis_mul (w : Nat) (a : DSIS) (bs : List SI) (order : List Nat) (v : Val
   obtain ⟨g1, g2⟩ := mul_sound w s t r ⟨hs.1.wf, hs.1.bits⟩ ⟨ht.1.wf, ht.1.bits⟩ hs.1.nb ht.1.nb hs.2.2 ht.2.2 hs.2.1 ht.2.1 hr
   exact ⟨g1, fun x y hx hy _ => g2 x y hx hy⟩
 
-/-- `%` on sets — members of the divisor aligned; division by zero exempt -/
+/-- `%` on sets — any divisor members (`mod_sound_full`); division by zero exempt -/
 theorem dsis_mod (w : Nat) (a : DSIS) (bs : List SI) (order : List Nat) (v : Val)
-    (ha : ∀ s, s ∈ a.sis → NE w s) (hb : ∀ t, t ∈ bs → NE w t ∧ t.Aligned)
+    (ha : ∀ s, s ∈ a.sis → NE w s) (hb : ∀ t, t ∈ bs → NE w t)
     (h : a.lift2 SI.mod bs order = .ok v) (x y : Nat) (hx : a.mem x) (hy : memL bs y) (hy0 : y ≠ 0) : v.mem (x % y) := by
-  refine lift2_spec w _ (fun x y => x % y) (fun _ y => y ≠ 0) (NE w) (fun t => NE w t ∧ t.Aligned) a bs order v ?_ ha hb h x y hx hy hy0
+  refine lift2_spec w _ (fun x y => x % y) (fun _ y => y ≠ 0) (NE w) (NE w) a bs order v ?_ ha hb h x y hx hy hy0
   intro s t r hs ht hr
-  obtain ⟨⟨g1, _⟩, g2⟩ := mod_sound w s t r ⟨hs.wf, hs.bits⟩ ⟨ht.1.wf, ht.1.bits⟩ hs.nb ht.1.nb ht.2 hr
+  obtain ⟨⟨g1, _⟩, g2⟩ := mod_sound_full w s t r ⟨hs.wf, hs.bits⟩ ⟨ht.wf, ht.bits⟩ hs.nb ht.nb hr
   exact ⟨g1, g2⟩
 
 /-- the three shifts on sets (the amounts: any well-formed intervals) -/
